@@ -12,6 +12,7 @@ import (
 	"math"
 	"net/http"
 	"sync"
+	"sync/atomic"
 	"time"
 
 	"go.amzn.com/lambda/core/directinvoke"
@@ -71,8 +72,8 @@ type InvokeContext struct {
 	ReplySent   bool
 	ReplyStream http.ResponseWriter
 	Direct      bool
-	// ResetStarted is set once Reset() begins tearing this reservation down
-	ResetStarted bool
+	// ResetsBegun is the number of resets that had begun when this reservation was made
+	ResetsBegun uint64
 }
 
 type Server struct {
@@ -92,6 +93,7 @@ type Server struct {
 	mutex         sync.Mutex
 	invokeCtx     *InvokeContext
 	invokeTimeout time.Duration
+	resetsBegun   atomic.Uint64 // number of Reset() calls begun
 
 	reservationContext context.Context
 	reservationCancel  func()
@@ -177,6 +179,7 @@ func (s *Server) setNewInvokeContext(invokeID string, traceID, lambdaSegmentID s
 			LambdaSegmentID:  lambdaSegmentID,
 			InvackDeadlineNs: math.MaxInt64, // no INVACK in standalone
 		},
+		ResetsBegun: s.resetsBegun.Load(),
 	}
 
 	resp := &ReserveResponse{
@@ -232,7 +235,8 @@ func (s *Server) setReplyStream(w http.ResponseWriter, direct bool) (string, err
 	s.mutex.Lock()
 	defer s.mutex.Unlock()
 
-	if s.invokeCtx == nil || s.invokeCtx.ResetStarted {
+	// a reset that began after the reservation was made is tearing it down
+	if s.invokeCtx == nil || s.invokeCtx.ResetsBegun != s.resetsBegun.Load() {
 		return "", ErrNotReserved
 	}
 
@@ -395,12 +399,10 @@ func (s *Server) Reset(reason string, timeoutMs int64) (*statejson.ResetDescript
 		DeadlineNs: deadlineNsFromTimeoutMs(timeoutMs),
 	}
 
-	// from now on no invoke may be attached to the reservation that is being reset
-	s.mutex.Lock()
-	if s.invokeCtx != nil {
-		s.invokeCtx.ResetStarted = true
-	}
-	s.mutex.Unlock()
+	// from now on no invoke may be attached to the reservation that is being reset;
+	// counted without s.mutex, which a response still being received holds until its
+	// body ends (the reset is what ends it, by killing the sender)
+	s.resetsBegun.Add(1)
 
 	go func() {
 		select {
